@@ -1,6 +1,6 @@
 def harness_args(run, tier, n, cases):
     base = cases[:-len(".cases")]
-    e2e = 12 if tier == "quick" else 120
+    e2e = 16 if tier == "quick" else 120
     return [
         ["-seed", run.seed, "-n", n, "-tier", tier, "-pass", "decode", "-out", cases],
         ["-seed", run.seed, "-n", max(500, n // 2), "-tier", tier, "-pass", "reader", "-out", base + "_reader.cases"],
@@ -12,7 +12,7 @@ PROP = {
     "id": "C04",
     "harness": "c04",
     "driver": "c04",
-    "n_quick": 6000,
+    "n_quick": 30000,
     "n_thorough": 250000,
     "harness_args": harness_args,
     "harness_timeout": 2400,
